@@ -7,6 +7,18 @@ CHECKS = {
              text="The batch merge / length-prefixed encoding layer is model-checked against the map-of-lists specification for every small store and batch; every TLC-enumerated short history and seeded random long histories are executed on the real rdb package and each recorded step is validated by TLC against the specification.",
              note="Bounded model (2 keys, 4 values, <=3 stored values, batches <=2+2); conformance is sampling of executions; trusts TLC, RocksDB, the harness' value digests.", ref="6.1"),
 }
+SERVE_NOTE = "Bounded model (2-3 query workers, <=2-3 reloads, <=4 generations); goroutines are steered only at public seams (Stats, ResponseWriter, DBI calls), interleavings between seams are left to the Go runtime; the instrumented in-memory backend stands for the CDB / RocksDB drivers (real backends are exercised by C14's stress); trusts TLC and the harness event log."
+CHECKS.update({
+ "C05": dict(cat="model_checking", tech="TLC model checking of Serve.tla (ideal design) + TLC counterexamples/simulation/lifecycle schedules replayed on the real FBDNSDB with parked goroutines + TLC trace validation of the event log (ServeObs)",
+             text="The reload/serve design is model-checked exhaustively (visibility, single generation, monotonicity, failed reload is a no-op); behaviours of the code-shaped model (TLC counterexamples, TLC simulation, all short lifecycle sequences) are replayed step by step on the real dnsserver.FBDNSDB/db.DB with goroutines parked at seams, and TLC judges every recorded response against the property specification.",
+             note=SERVE_NOTE, ref="5"),
+ "C06": dict(cat="model_checking", tech="TLC model checking of the refcount/close lifecycle in Serve.tla + exhaustive short lifecycle sequences and TLC-generated schedules replayed on the real db.DB/FBDNSDB with an instrumented backend + ServeObs trace validation",
+             text="NoUseAfterClose / CloseOnce / NoLeak are invariants of the model, checked exhaustively on the ideal design; every lifecycle sequence (acquire, use, release, the eight reload outcomes, late goroutine completion, shutdown) up to the depth bound plus TLC schedules are executed on the real code over a backend that records every touch, close and leak.",
+             note=SERVE_NOTE, ref="5"),
+ "C12": dict(cat="model_checking", tech="TLC model checking of the cache part of Serve.tla + replay of TLC schedules on the real handler with the cache enabled + ServeObs trace validation (StaleNeverServed)",
+             text="StaleNeverServed is model-checked on the design; schedules that park a query across a complete reload (purge) and then run fresh queries are replayed on the real handler with the LRU enabled; TLC rejects any response, hit or miss, that carries a generation older than allowed.",
+             note=SERVE_NOTE + " The cache-invisibility half (same response with and without cache) is checked by the differential driver described in DESIGN.md 5.5.", ref="5.5"),
+})
 NA = {}
 props = [json.loads(l)["id"] for l in open(os.path.join(V, "properties.jsonl"))]
 m = {
